@@ -59,6 +59,7 @@ class DiffCtx:
         self.idx = outer.idx
         self.spec = outer.spec
         self.classes = collections.Counter()
+        self.notes = []
         self.pid = 'C18'
 
     def run(self, lines, exe='release'):
